@@ -133,6 +133,15 @@ def _state_free(kind):
         ref2 = _all_jacobians(o, new, q)
         for m in ALL_METHODS:
             P.check_eq("after_edit_other:%s" % m, got2[m], ref2[m])
+        # an identity pose handed out earlier is edited by its owner: no Jacobian may change
+        before_edit = _all_jacobians(o, new, q)
+        ident = cls.identity()
+        ident[0] = ident[0] + 0.3
+        if kind == "SE3":
+            ident[3:] = numpy.array([0.5, 0.5, 0.5, 0.5])
+        after_edit = _all_jacobians(o, new, q)
+        for m in before_edit:
+            P.check_eq("identity_edit_does_not_leak:%s" % m, after_edit[m], before_edit[m])
         # the same object on both sides
         twin = cls(*_ctor(kind, numpy.array(o.to_array(), copy=True)))
         for m in ALL_METHODS:
